@@ -10,6 +10,26 @@ from .model import concrete_bins, sym_cuts, real_cuts, chunk_stream
 META = {"lab": "x", "n": 3, "nested": {"a": [1, 2.5, None], "b": True}}
 
 
+def _bins_for(p):
+    bins = concrete_bins(p["layout"], p["kind"])
+    if p.get("chrom_names"):
+        # chromosome names whose given order is not the lexicographic one: the order of the bin table is the order of the file
+        bins["chrom"] = bins["chrom"].map({f"c{i}": nm for i, nm in enumerate(p["chrom_names"])})
+    return bins
+
+
+def _bins_back(c, bins, check):
+    """the bin table, chromosome names and lengths read back are the ones given, in the given order"""
+    from .common import vals
+    names = list(dict.fromkeys(bins["chrom"].tolist()))
+    lens = [int(bins[bins["chrom"] == nm]["end"].max()) for nm in names]
+    check(list(c.chromnames) == names and [int(x) for x in vals(c.chromsizes)] == lens,
+          f"chromosome names / lengths read back {list(c.chromnames)} are not those of the bin table in its order {names}")
+    bt = c.bins()[:]
+    check([str(x) for x in vals(bt["chrom"])] == bins["chrom"].tolist() and [int(x) for x in vals(bt["start"])] == bins["start"].tolist()
+          and [int(x) for x in vals(bt["end"])] == bins["end"].tolist(), "bin table read back differs from the one given")
+
+
 def _input_form(form, cols, cuts, mk, pd):
     if form == "df":
         return pd.DataFrame({k: mk(v, k) for k, v in cols.items()})
@@ -24,7 +44,7 @@ def roundtrip_sym(p):
     sc = symcooler()
     layout, K, m, upper, form = p["layout"], p["K"], p["m"], p["upper"], p["form"]
     n = sum(layout)
-    bins = concrete_bins(layout, p["kind"])
+    bins = _bins_for(p)
     b1, b2, v = sym_pixels(n, K, upper, vhi=p.get("vhi", 9))
     w = [sym_int(f"w{q}", -3, 3) for q in range(K)]
     cols = {"bin1_id": b1, "bin2_id": b2, "count": v, "w": w}
@@ -68,6 +88,7 @@ def roundtrip_sym(p):
     info = c.info
     prove(info["metadata"] == META and info["genome-assembly"] == "asm1", "metadata or assembly name not returned unchanged")
     prove(info["storage-mode"] == ("symmetric-upper" if upper else "square"), "storage mode flag mixed up")
+    _bins_back(c, bins, lambda ok, msg: prove(ok, msg))
     return dict(pixels=tab, matrix=mat, w=matw, nnz=info["nnz"], sum=info["sum"])
 
 
@@ -76,7 +97,7 @@ def roundtrip_real(p, inputs):
     import pandas as pd
     layout, K, m, upper, form = p["layout"], p["K"], p["m"], p["upper"], p["form"]
     n = sum(layout)
-    bins = concrete_bins(layout, p["kind"])
+    bins = _bins_for(p)
     b1, b2, v = pixels_from_inputs(inputs, K)
     w = [inputs[f"w{q}"] for q in range(K)]
     cols = {"bin1_id": b1, "bin2_id": b2, "count": v, "w": w}
@@ -105,6 +126,11 @@ def roundtrip_real(p, inputs):
         raise OracleFailure("metadata or assembly name not returned unchanged")
     if info["storage-mode"] != ("symmetric-upper" if upper else "square"):
         raise OracleFailure("storage mode flag mixed up")
+
+    def _fail(ok, msg):
+        if not ok:
+            raise OracleFailure(msg)
+    _bins_back(c, bins, _fail)
     return dict(pixels={**{k: tab[k].tolist() for k in tab.columns}, "__index__": tab.index.tolist()}, matrix=mat, w=matw,
                 nnz=info["nnz"], sum=info["sum"])
 
@@ -127,6 +153,7 @@ def _cases(tier):
     # bin ids handed over in the narrowest integer type that holds them (12 bins in int8): any arithmetic on the id columns
     # inside create happens in that type
     out.append(dict(layout=[2], kind="fixed", K=3, m=1, upper=False, form="df"))
+    out.append(dict(layout=[1, 2], kind="variable", K=2, m=2, upper=True, form="iter", chrom_names=["chr2", "chr10"]))
     out.append(dict(layout=[12], kind="even", K=2, m=1, upper=True, form="df", id_dtype="int8"))
     out.append(dict(layout=[12], kind="even", K=2, m=1, upper=False, form="dict", id_dtype="int8"))
     return out
